@@ -31,6 +31,12 @@ def assigned_names(stmts):
                 out.update(('$ycnt', '$yany', '$ylast', '$ypair', '$yrow', '$yseq', '$ylen'))       # ghost state of a generator
             if isinstance(n, ast.Subscript) and isinstance(n.ctx, ast.Store) and isinstance(n.value, ast.Name):
                 out.add(n.value.id)                          # d[k] = v mutates the local d
+            if isinstance(n, ast.Call) and isinstance(n.func, ast.Attribute) and n.func.attr in ('append', 'extend', 'update', 'add', 'pop', 'clear'):
+                base = n.func.value
+                while isinstance(base, (ast.Subscript, ast.Attribute)):
+                    base = base.value
+                if isinstance(base, ast.Name):
+                    out.add(base.id)                         # x[...].append(v) mutates (something reachable from) the local x
     return out
 
 
@@ -61,6 +67,21 @@ def havoc_like(v, name):
         return VList([havoc_like(x, '%s[%d]' % (name, i)) for i, x in enumerate(v.items)])
     if k == 'opaque' and v.tag == 'ghost':
         return VOpaque(fresh(name, v.z.sort()), 'ghost')
+    if k == 'dict' and v.pairs and all(kk.kind == 'str' for kk, _ in v.pairs) and not v.esc and any(kk.s == 'links' for kk, _ in v.pairs) \
+            and getattr(CUR_CTX, 'pathworld', None) is None:
+        # node-link data: the slot 'links' is a list of link dicts that grows inside loops (a multiset of (source, target, time));
+        # the other slots are not written by the loops
+        out = []
+        for kk, vv in v.pairs:
+            if kk.s == 'links':
+                if vv.kind not in ('linkbag', 'list'):
+                    raise Undecided('links slot of kind %s' % vv.kind)
+                if vv.kind == 'list' and vv.items:
+                    raise Undecided('links list not empty before the loops')
+                out.append((kk, VLinkBag(fresh(name + '.links', z3.ArraySort(Node, z3.ArraySort(Node, z3.ArraySort(Int, Int)))))))
+            else:
+                out.append((kk, vv))
+        return VDictLit(out)
     if k == 'dict' and v.pairs and all(kk.kind == 'str' for kk, _ in v.pairs) and not v.esc and getattr(CUR_CTX, 'pathworld', None) is not None:
         # a local dict of result lists (annotate_paths): every slot becomes an optional bag of input paths
         from .pathsmodel import VOptBag
